@@ -63,6 +63,11 @@ var facts = []fact{
 	{"tokensBufSize", tyNat, "0", func(p *pkg) (string, string, error) { return natConstFact(p, "tokensBufSize") }},
 	{"concSkeleton", "List (String × List String)", "[]", concSkeletonFact},
 	{"chanUsers", tyStrs, "[\"?\"]", chanUsersFact},
+	{"lfsAccess", "List (String × String)", "[(\"?\", \"bare\")]", lfsAccessFact},
+	{"progWriters", tyStrs, "[\"?\"]", fieldWritersFact("Prog")},
+	{"pkgVarWriters", tyStrs, "[\"?\"]", pkgVarWritersFact},
+	{"execReach", tyStrs, "[\"?\"]", reachableFact("execute")},
+	{"pipelineReach", tyStrs, "[\"?\"]", reachableFact("ParseFile")},
 }
 
 func sortStrings(xs []string) { sort.Strings(xs) }
